@@ -36,6 +36,17 @@ REQUIRED_THEOREMS = [
     "TapkeeVerif.C12.stronglyConnected_perm",
     "TapkeeVerif.C12.connectivityDecision_perm",
     "TapkeeVerif.C12.no_hidden_state",
+    "TapkeeVerif.C12.kernelDistance_translation",
+    "TapkeeVerif.C12.lleLocalGram_translation",
+    "TapkeeVerif.C12.localCenteredGram_translation",
+    "TapkeeVerif.C12b.dijkstra_perm",
+    "TapkeeVerif.C12b.dijkstra_scale",
+    "TapkeeVerif.C12b.isomapPre_perm",
+    "TapkeeVerif.C12b.isomapPre_scale",
+    "TapkeeVerif.C12b.pcaPre_c06_scale",
+    "TapkeeVerif.C12b.pcaPre_c06_translation",
+    "TapkeeVerif.C12b.spectralTopEig_perm",
+    "TapkeeVerif.C12b.isTopEig_of_spectral",
 ]
 
 # the thread count is C15's subject: every run here is single-threaded so that a difference between two runs is
@@ -108,12 +119,12 @@ def d_clusters(r, n, D):
     nb = n - nout - na
     pts = []
     for _ in range(na):
-        pts.append(tuple(25 * r.range(-4, 4) for _ in range(D)))
-    off = [25 * 60] + [0] * (D - 1)
+        pts.append(tuple(25 * r.range(-40, 40) for _ in range(D)))
+    off = [25 * 600] + [0] * (D - 1)
     for _ in range(nb):
-        pts.append(tuple(off[c] + 25 * r.range(-14, 14) for c in range(D)))
+        pts.append(tuple(off[c] + 25 * r.range(-140, 140) for c in range(D)))
     for o in range(nout):
-        far = [25 * 400 * (o + 1) * (1 if r.chance(1, 2) else -1)] + [25 * r.range(300, 500) for _ in range(D - 1)]
+        far = [25 * 4000 * (o + 1) * (1 if r.chance(1, 2) else -1)] + [25 * r.range(3000, 5000) for _ in range(D - 1)]
         pts.append(tuple(far))
     return pts
 
@@ -134,15 +145,16 @@ def sq_dists(X):
     return [[sum((a - b) ** 2 for a, b in zip(p, q)) for q in X] for p in X]
 
 
-def knn_boundary_tie(X, k):
-    """some sample has its k-th and (k+1)-th nearest other samples at equal distance, for k or any doubling of it"""
+def knn_boundary_tie(X, k, doubling=True, S=None):
+    """some sample has its k-th and (k+1)-th nearest other samples at equal distance, for k or (when the connectivity
+    check may double it) any doubling of it"""
     n = len(X)
-    S = sq_dists(X)
+    S = S or sq_dists(X)
     ks = []
     kk = min(k, n - 1)
     while True:
         ks.append(kk)
-        if kk >= n - 1:
+        if kk >= n - 1 or not doubling:
             break
         kk = min(2 * kk, n - 1)
     for i in range(n):
@@ -224,6 +236,32 @@ def width_for(X, sh):
     return "1:%d" % e
 
 
+def k_lower(m, d):
+    lo = 3
+    # one more neighbour than the local basis has columns: with equality the local projector is the identity and
+    # the alignment matrix is the rounding residue of I - I (ill-conditioned by construction)
+    if m == "hlle":
+        lo = 2 + d + d * (d + 1) // 2
+    if m in ("kltsa", "lltsa"):
+        lo = max(lo, d + 2)
+    return lo
+
+
+def make_tie_free(r, c):
+    """choose num_neighbors (and, if need be, switch the k-doubling connectivity loop off) so that no sample has a tie
+    between its k-th and (k+1)-th neighbour distance: the k-NN graph is then determined by the distances alone"""
+    X, n = c["X"], len(c["X"])
+    S = sq_dists(X)
+    lo = k_lower(c["m"], c["d"])
+    ks = r.shuffle([k for k in range(lo, min(n - 1, max(lo, 10)) + 1)])
+    for conn in ([c["conn"]] if c["conn"] == 0 else [1, 0]):
+        for k in ks:
+            if not knn_boundary_tie(X, k, doubling=bool(conn), S=S):
+                c["k"], c["conn"] = k, conn
+                return True
+    return False
+
+
 def gen_call(r, m, X, sh, dclass):
     n, D = len(X), len(X[0])
     c = {"m": m, "em": "dense", "metric": "euclid", "sh": sh, "X": X, "conn": 1}
@@ -237,13 +275,7 @@ def gen_call(r, m, X, sh, dclass):
     c["d"] = d
     if m in KNN:
         c["nm"] = r.choice(NMS)
-        lo = 3
-        # one more neighbour than the local basis has columns: with equality the local projector is the identity and
-        # the alignment matrix is the rounding residue of I - I (ill-conditioned by construction)
-        if m == "hlle":
-            lo = 2 + d + d * (d + 1) // 2
-        if m in ("kltsa", "lltsa"):
-            lo = max(lo, d + 2)
+        lo = k_lower(m, d)
         c["k"] = min(n - 1, r.range(lo, max(lo, 8)))
         c["conn"] = 1 if (dclass == "clusters" or r.chance(3, 4)) else 0
     if m in GAUSS:
@@ -340,10 +372,22 @@ class Pair:
         return True
 
 
+SCALE_EXPONENTS = [-40, -30, -20, -10, -3, -1, 1, 2, 5, 10, 20, 30]
+
+
 def gen_pair(r, kind, m, dclass, n, D, quick):
-    X = DATA[dclass](r, n, D)
     sh = r.choice([0, 0, 1, 3, 6])
-    a = gen_call(r, m, X, sh, dclass)
+    for attempt in range(8):
+        X = DATA[dclass](r, n, D)
+        a = gen_call(r, m, X, sh, dclass)
+        if not (kind == "perm" and m in KNN):
+            break
+        # the permutation relation of a k-NN method is only decidable when the k-NN graph is determined by the
+        # distances: pick k (or data) without a tie at the list boundary
+        if make_tie_free(r, a):
+            break
+        if attempt >= 3:
+            dclass = "generic"
     # both members start from the same std::rand / shuffle-generator state (the VP-tree draws its vantage points
     # from std::rand): a pair relates two calls with the same call history; history effects are section 4's subject
     a["seed"] = 1 + r.below(1000)
@@ -361,12 +405,9 @@ def gen_pair(r, kind, m, dclass, n, D, quick):
         b["X"] = Y
         return Pair("rigid", a, b, dclass, desc=desc, t=t)
     if kind == "scale":
-        e = r.choice([-3, -2, -1, 1, 2, 3, 5])
-        nsh = sh - e
-        if nsh < 0:
-            b["X"] = [tuple(v * (2 ** (-nsh)) for v in p) for p in X]
-            nsh = 0
-        b["sh"] = nsh
+        # powers of two from 2^-40 to 2^30 (exact in double): an absolute threshold anywhere in the pipeline shows
+        e = r.choice(SCALE_EXPONENTS)
+        b["sh"] = sh - e          # coordinates are integer * 2^-sh; a negative sh multiplies
         return Pair("scale", a, b, dclass, cexp=e)
     raise ValueError(kind)
 
@@ -385,7 +426,10 @@ def judge_pairs(ctx, binary, pairs, shrink=True):
         verdicts.append(v)
         m = p.a["m"]
         sa, sb = oa["status"], ob["status"]
-        tie = p.kind == "perm" and m in KNN and knn_boundary_tie(p.a["X"], p.a["k"])
+        tie = p.kind == "perm" and m in KNN and knn_boundary_tie(p.a["X"], p.a["k"], doubling=bool(p.a.get("conn", 1)))
+        if shrink and p.kind == "perm" and m in KNN:
+            ctx.c12_knn_perm[0] += 1
+            ctx.c12_knn_perm[1] += 1 if tie else 0
         if tie and not (sa.startswith(("harness", "abort")) or sb.startswith(("harness", "abort"))):
             # equidistant candidates for the last neighbour slot: WHICH of them is listed depends on the sample
             # order, legitimately; the two graphs (hence connectivity, geodesics, weights) need not correspond
@@ -990,19 +1034,41 @@ def histories(ctx, binary, r, count, quick):
 
 
 # ----------------------------------------------------------------------------- translator
-def translate(ctx):
+def _load_tool(name):
     import importlib.util
-    spec = importlib.util.spec_from_file_location("translate_statics", os.path.join(vlib.ROOT, "tools", "translate_statics.py"))
+    spec = importlib.util.spec_from_file_location(name, os.path.join(vlib.ROOT, "tools", name + ".py"))
     mod = importlib.util.module_from_spec(spec)
     spec.loader.exec_module(mod)
+    return mod
+
+
+def translate(ctx):
+    mod = _load_tool("translate_statics")
     table = mod.generate(vlib.REPO, os.path.join(vlib.LEAN_DIR, "TapkeeVerif", "Gen", "Statics.lean"))
     ctx.extra["statics"] = {"objects": len(table), "mutable": len([o for o in table if o["mutable"]]),
                             "unknown": [o["name"] + "@" + o["file"] for o in table if o["role"] == "unknown"]}
+    # the scanner's own regression snippets (thread_local, lambda-local statics, class-template members, mutable
+    # members of const statics, inline variables, rand() in a deterministic stage; harmless constants)
+    wrong = mod.selftest(vlib.REPO)
+    ctx.extra["statics"]["selftest"] = {"snippets": len(mod.SELFTEST), "wrong": wrong}
+    if wrong:
+        ctx.broken("translator-selftest", "tools/translate_statics.py self-test",
+                   "the static-object scanner misjudges its regression snippets on this tree: " + "; ".join(wrong)[:1500])
+    # Props/C12b states isomapPre_perm / isomapPre_scale over Gen/IsomapSteps.lean, which C04's translator owns:
+    # regenerate it here as well so that a C12 run on a changed tree sees the current statement list
+    try:
+        c04 = _load_tool("translate_c04")
+        text = c04.generate(vlib.REPO)
+        if vlib.write_if_changed(os.path.join(vlib.LEAN_DIR, "TapkeeVerif", "Gen", "IsomapSteps.lean"), text):
+            ctx.log("Gen/IsomapSteps.lean regenerated (C04's translator)")
+    except FileNotFoundError:
+        ctx.log("tools/translate_c04.py not present: Gen/IsomapSteps.lean left as it is")
 
 
 # ----------------------------------------------------------------------------- main
 def correspond(ctx):
     ctx.c12_reported = set()
+    ctx.c12_knn_perm = [0, 0]          # permutation pairs of k-NN methods: generated, trivialised by a boundary tie
     # the neighbour-search stage has its own small harness: built and run in the background
     knn_clouds, knn_lines = knn_prepare(ctx.rng.fork(), 130 if ctx.tier == "quick" else 1500)
     knn_job = KnnJob(ctx, knn_lines)
@@ -1064,6 +1130,13 @@ def correspond(ctx):
         verdicts = judge_pairs(ctx, binary, pairs)
         account(ctx, binary, verdicts, "round%d" % rnd)
         ctx.log("pairs round %d: %d pairs" % (rnd, len(pairs)))
+
+    tot, tied = ctx.c12_knn_perm
+    ctx.extra["knn_perm_pairs"] = {"generated": tot, "trivialised_by_boundary_tie": tied, "declared_max_fraction": "1/5"}
+    if tot and 5 * tied > tot:
+        ctx.broken("coverage:knn-perm-ties", "generator of permutation pairs for k-NN methods",
+                   "%d of %d permutation pairs of k-NN methods were trivialised by a k-th/(k+1)-th distance tie (declared "
+                   "maximum: 20 %%): the permutation clause is not being judged" % (tied, tot))
 
     # 3b. the neighbour search alone on larger clouds (ran in the background)
     knn_job.join()
